@@ -417,7 +417,8 @@ pub fn run(cfg: &Cfg, rep: &mut Rep) {
             for ts in SCALES {
                 for (h, mi) in [(23u8, 59u8), (23, 58), (22, 59), (0, 0), (12, 30), (23, 60), (24, 59), (24, 0), (24, 30), (25, 59), (23, 255)] {
                     for ns in [0u32, 5, 999_999_999, 1_000_000_000, 1_000_000_001, 2_000_000_000, u32::MAX] {
-                        check(rep, &tab, y, m, d, h, mi, 60, ns, ts, false);
+                        // (an accepted 60th second is a valid input like any other: the panicking family must build it too)
+                        check(rep, &tab, y, m, d, h, mi, 60, ns, ts, h == 23 && mi == 59 && ns < 10);
                     }
                 }
                 check_family_reject(rep, &tab, y, m, d, 23, 59, 60, 1_000_000_001, ts);
